@@ -2303,6 +2303,12 @@ impl Zeroconf {
                     }
                 }
             }
+
+            // A service woken up here may start further probes, e.g. for its other
+            // records after a rename: make sure we wake up for them.
+            for timer in dns_registry.new_timers.drain(..) {
+                self.timers.push(Reverse(timer));
+            }
         }
 
         if !invalid_intf_addrs.is_empty() {
